@@ -31,7 +31,8 @@ REPO = os.environ.get('VERIF_REPO', '/repo')
 
 def real_profile():
     # nested recurrent destinations count attempts per process: not meaningful across pool workers
-    return gen.profile(n_max=8, p_fail=0.15, p_retry=0.2, p_rec_nested=0.0, p_falsy_ad=0.0, p_generic=0.15)
+    return gen.profile(n_max=8, p_fail=0.15, p_retry=0.2, p_rec_nested=0.0, p_falsy_ad=0.0, p_generic=0.15,
+                       p_nested_exhaust_shape=0.0)
 
 
 def simplify_for_real(prog):
